@@ -500,6 +500,12 @@ func (t *Task) TempDir() string {
 	pathPrefix := tempDirPrefix + "." + sanitizePathFragment(t.Name)
 	hashPcs := []string{t.Name}
 	for _, ipName := range sortedFileIPMapKeys(t.InIPs) {
+		if _, isJoined := t.subStreamIPs[ipName]; isJoined {
+			// The IP received on a joined in-port is only a carrier with a
+			// random temporary file name. The files of its sub-stream are
+			// added below, and those identify the task
+			continue
+		}
 		hashPcs = append(hashPcs, splitAllPaths(t.InIP(ipName).Path())...)
 	}
 	for _, subIPName := range sortedFileIPSliceMapKeys(t.subStreamIPs) {
